@@ -237,7 +237,7 @@ class Checker:
         # by a refactoring is havocked) are inconclusive: the bounded stand-in of the family decides
         inconclusive = {}
         for vc, o, r in list(violations):
-            unk = [h for h in vc.havoc_calls if h in prog.funcs]
+            unk = [h for h in vc.havoc_calls if h and h != 'dynamic call']
             if unk:
                 inconclusive.setdefault(vc.fname, (vc, unk, []))[2].append((vc, o, r))
         for fn, (vc, unk, obs) in inconclusive.items():
